@@ -2,11 +2,14 @@
 (* Exhaustive configuration of Matcher.tla + emission of the reference vectors. *)
 EXTENDS Matcher, Utf8, Json, IOUtils, SequencesExt
 
-CONSTANTS AB_H, AB_N, U_H, U_N    \* length bounds: {a,b} bytes / {a,b,n-tilde} characters
+CONSTANTS AB_H, AB_N, U_H, U_N,   \* length bounds: {a,b} bytes / {a,b,n-tilde} characters
+          RAW_H, RAW_N            \* arbitrary (non-UTF-8) bytes for the slice::bytes_* functions
+
+RawBytes  == {97, 128, 195, 255}  \* ASCII, continuation byte, lead byte, never-valid byte
 
 UChars    == {CA, <<98>>, CNT}
-MCHays    == SeqsUpTo({97, 98}, AB_H) \cup StrsUpTo(UChars, U_H)
-MCNeedles == SeqsUpTo({97, 98}, AB_N) \cup StrsUpTo(UChars, U_N)
+MCHays    == SeqsUpTo({97, 98}, AB_H) \cup StrsUpTo(UChars, U_H) \cup SeqsUpTo(RawBytes, RAW_H)
+MCNeedles == SeqsUpTo({97, 98}, AB_N) \cup StrsUpTo(UChars, U_N) \cup SeqsUpTo(RawBytes, RAW_N)
 
 Vec(o, hh, nn) == [m |-> "Matcher", op |-> o, h |-> hh, n |-> nn, exp |-> Ref(o, hh, nn)]
 Vectors == {Vec(o, hh, nn) : o \in Ops, hh \in MCHays, nn \in MCNeedles}
